@@ -39,8 +39,21 @@ for patch in "${patches[@]}"; do
   echo "$name (breaks $prop): caught by:${caught:- NONE}"
   rows+=("{\"patch\":\"$name\",\"property\":\"$prop\",\"applies\":true,\"caught_by\":\"${caught# }\",\"checks\":{${res%,}}}")
 done
-if [ -z "$only" ]; then
-  printf '{"selftest":"sensitivity","results":[%s]}\n' "$(IFS=,; echo "${rows[*]}")" > "$out"
-fi
+# A full run rewrites the evidence file; a filtered run replaces only the rows
+# of the patches it ran (each row names the /verif commit it was produced at).
+vc=$(git -C "$HERE" rev-parse --short HEAD 2>/dev/null || echo "?")
+printf '[%s]\n' "$(IFS=,; echo "${rows[*]}")" | python3 -c '
+import json, sys
+new = json.load(sys.stdin); out, vc, full = sys.argv[1], sys.argv[2], sys.argv[3] == ""
+for r in new: r["verif_commit"] = vc
+old = []
+if not full:
+    try: old = json.load(open(out))["results"]
+    except Exception: old = []
+names = {r["patch"] for r in new}
+rows = [r for r in old if r["patch"] not in names] + new
+rows.sort(key=lambda r: (not r["patch"].startswith("mutants/"), r["patch"]))
+json.dump({"selftest": "sensitivity", "results": rows}, open(out, "w"), indent=0)
+' "$out" "$vc" "$only"
 "$HERE/check" build >/dev/null 2>&1
 exit 0
